@@ -1,6 +1,7 @@
 package scen
 
 import (
+	"berty.tech/go-orbit-db/stores/replicator"
 	"encoding/json"
 	"fmt"
 	"sort"
@@ -38,6 +39,12 @@ type MultiDB struct {
 	// gated: the instance's topic membership lookups and publishes park until released, and only local
 	// writes are offered (interleavings of concurrent announcements)
 	gated bool
+	// fetchGated: the remote peer holds entries of every database that the instance lacks; only head
+	// exchanges over the direct channel, deliveries and releases of the instance's parked block fetches are
+	// offered, so that replication of one database is in flight while another database's heads arrive
+	fetchGated bool
+	exchanged  []int
+	owner      map[string]int // entry hash -> database index (remote entries)
 }
 
 func writeAny(s iface.Store, v string) error {
@@ -239,8 +246,55 @@ func (w *MultiDB) prettyGate(l string) string {
 	return l
 }
 
+// PrepareFetchGated gives the remote peer `per` entries in every database without telling the instance, then
+// gates the instance's block fetches.
+func (w *MultiDB) PrepareFetchGated(per int) error {
+	w.fetchGated, w.owner, w.exchanged = true, map[string]int{}, make([]int, len(w.dbs))
+	for i, d := range w.dbs {
+		for j := 0; j < per; j++ {
+			if err := writeAny(d.sr, fmt.Sprintf("r%d.%d", i, j)); err != nil {
+				return err
+			}
+		}
+		for _, e := range d.sr.OpLog().GetEntries().Slice() {
+			w.owner[e.GetHash().String()] = i
+		}
+	}
+	if err := sim.Quiesce(); err != nil {
+		return err
+	}
+	for _, m := range w.net.PubSub.Inflight() {
+		w.net.PubSub.Drop(m)
+	}
+	w.mu.Lock()
+	w.events = map[string]int{}
+	w.pending = nil
+	w.mu.Unlock()
+	w.pubSeen = len(w.net.PubSub.Published)
+	w.net.Gates.Enable(func(kind, peer, key, caller string) bool { return peer == "P" && kind == "dag.get" })
+	return nil
+}
+
 func (w *MultiDB) Enabled() []string {
 	var out []string
+	if w.fetchGated {
+		for _, l := range w.net.Gates.Parked() {
+			out = append(out, "ok:"+w.prettyGate(l))
+		}
+		seen := map[string]bool{}
+		for _, m := range w.net.PubSub.Inflight() {
+			if l := w.msgLabel(m); !seen[l] {
+				seen[l] = true
+				out = append(out, "deliver:"+l)
+			}
+		}
+		for i := range w.dbs {
+			if w.exchanged[i] == 0 {
+				out = append(out, fmt.Sprintf("exchange:%d", i))
+			}
+		}
+		return out
+	}
 	if w.gated {
 		for _, l := range w.net.Gates.Parked() {
 			out = append(out, "ok:"+w.prettyGate(l))
@@ -299,6 +353,11 @@ func (w *MultiDB) Do(a string) error {
 				target = i
 			}
 		}
+		for h, i := range w.owner {
+			if strings.Contains(real, h) {
+				target = i
+			}
+		}
 		if err := w.net.Gates.Release(real, sim.AnswerOK); err != nil {
 			return err
 		}
@@ -320,6 +379,9 @@ func (w *MultiDB) Do(a string) error {
 		}
 		payload, _ := json.Marshal(&iface.MessageExchangeHeads{Address: w.dbs[target].addr, Heads: heads})
 		w.net.PubSub.InjectDirect(w.R.Peer.ID, w.P.Peer.ID, payload)
+		if w.fetchGated {
+			w.exchanged[target]++
+		}
 	case "load":
 		target = int(arg[0] - '0')
 		if err := w.dbs[target].sp.Load(bg, -1); err != nil {
@@ -370,6 +432,25 @@ func (w *MultiDB) Do(a string) error {
 		diff("replication-status", b.status, after.status)
 		diff("emitted-events", b.events, after.events)
 	}
+	// (3) replication of one database is not undone by traffic of another: once every exchanged database's
+	// message has been delivered and every fetch released, the instance holds all the remote peer's entries
+	if w.fetchGated && len(w.net.Gates.Parked()) == 0 && len(w.net.PubSub.Inflight()) == 0 {
+		for i, d := range w.dbs {
+			if w.exchanged[i] == 0 {
+				continue
+			}
+			var missing []string
+			for _, e := range d.sr.OpLog().GetEntries().Slice() {
+				if _, ok := d.sp.OpLog().Get(e.GetHash()); !ok {
+					missing = append(missing, short4(e.GetHash().String()))
+				}
+			}
+			if len(missing) > 0 {
+				w.report(explore.Violation{Signature: "replication-of-one-database-undone-by-another",
+					Detail: fmt.Sprintf("after %s everything is delivered and released, but db%d (%s) lacks %d of the %d entries its heads message announced", a, i, d.kind, len(missing), d.sr.OpLog().Len())})
+			}
+		}
+	}
 	// (1) everything P sent carries only its own database's address and heads
 	w.net.PubSub.Lock()
 	pub := append([]*sim.Msg{}, w.net.PubSub.Published[w.pubSeen:]...)
@@ -411,7 +492,17 @@ func (w *MultiDB) Key() string {
 		ls = append(ls, w.msgLabel(m))
 	}
 	fmt.Fprintf(&b, " msgs=%v", ls)
-	if w.gated {
+	if w.fetchGated {
+		fmt.Fprintf(&b, " exchanged=%v", w.exchanged)
+		// the same block may be fetched more than once: the replicators' bookkeeping tells those states apart
+		for i, d := range w.dbs {
+			if vs, ok := d.sp.Replicator().(replicator.VerifStater); ok {
+				st := vs.VerifState()
+				fmt.Fprintf(&b, " r%d=%d/%d/%d/%d", i, len(st.Added), len(st.Fetching), len(st.Fetched), st.QueueLen)
+			}
+		}
+	}
+	if w.gated || w.fetchGated {
 		var ps []string
 		for _, l := range w.net.Gates.Parked() {
 			ps = append(ps, w.prettyGate(l))
@@ -440,14 +531,15 @@ func (w *MultiDB) Close() {
 }
 
 type C09Arg struct {
+	FetchGated int // > 0: entries per database held by the remote peer only; block fetches gated
 	SharedOpts bool
-	SameName bool
-	Gated    bool
-	Kinds    []string
-	Lists    []string
-	Depth    int
-	Shards   int
-	Shard    int
+	SameName   bool
+	Gated      bool
+	Kinds      []string
+	Lists      []string
+	Depth      int
+	Shards     int
+	Shard      int
 }
 
 func (a C09Arg) Name() string {
@@ -461,13 +553,16 @@ func (a C09Arg) Name() string {
 	if a.SharedOpts {
 		g += "/shared-options"
 	}
+	if a.FetchGated > 0 {
+		g += fmt.Sprintf("/gated-fetches-%d", a.FetchGated)
+	}
 	return fmt.Sprintf("multidb/%s/%s/d%d%s/shard%d.%d", strings.Join(a.Kinds, "+"), strings.Join(a.Lists, "+"), a.Depth, g, a.Shard, a.Shards)
 }
 
 func init() {
 	explore.Register(&explore.CheckDef{
 		ID: "C09", Level: "model_checking",
-		Rule: "one instance with its shared event bus holds 2-3 databases (type mixes, write lists {both peers, wildcard}); a remote instance holds replicas; explicit-state DFS over write(db), load(db), remote write(db) (announced on that database's topic), head exchange for db over the direct channel and delivery of any in-flight message, up to the depth bound; also with databases that share one name but differ in type or write list, and with databases opened through one shared options value. After every action: every database not named by the action keeps its entry set, heads, view, cached heads, replication status and emitted-event counts; every topic/direct message sent by the instance carries its own address and only heads of that log; every write/replicated event carries only entries of its own address. Non-trivial = states in which at least two databases hold entries.",
+		Rule: "one instance with its shared event bus holds 2-3 databases (type mixes, write lists {both peers, wildcard}); a remote instance holds replicas; explicit-state DFS over write(db), load(db), remote write(db) (announced on that database's topic), head exchange for db over the direct channel and delivery of any in-flight message, up to the depth bound; also with databases that share one name but differ in type or write list, with databases opened through one shared options value, and with the instance's block fetches gated so that the heads of one database arrive while another database's replication is in flight (then every database must still end up with everything announced to it). After every action: every database not named by the action keeps its entry set, heads, view, cached heads, replication status and emitted-event counts; every topic/direct message sent by the instance carries its own address and only heads of that log; every write/replicated event carries only entries of its own address. Non-trivial = states in which at least two databases hold entries.",
 		Units: func(tier string) []explore.Unit {
 			cfgs := []C09Arg{
 				{Kinds: []string{"eventlog", "eventlog"}, Lists: []string{"both", "both"}, Depth: 4},
@@ -490,6 +585,7 @@ func init() {
 			cfgs = append(cfgs, C09Arg{SameName: true, Kinds: []string{"eventlog", "keyvalue"}, Lists: []string{"both", "both"}, Depth: gd - 3})
 			cfgs = append(cfgs, C09Arg{SameName: true, Kinds: []string{"eventlog", "eventlog"}, Lists: []string{"both", "*"}, Depth: gd - 3})
 			cfgs = append(cfgs, C09Arg{SharedOpts: true, Kinds: []string{"eventlog", "keyvalue"}, Lists: []string{"both", "*"}, Depth: gd - 3})
+			cfgs = append(cfgs, C09Arg{FetchGated: 2, Kinds: []string{"eventlog", "keyvalue"}, Lists: []string{"both", "both"}, Depth: 9})
 			cfgs = append(cfgs, C09Arg{Gated: true, Kinds: []string{"eventlog", "eventlog"}, Lists: []string{"both", "both"}, Depth: gd})
 			cfgs = append(cfgs, C09Arg{Gated: true, Kinds: []string{"keyvalue", "eventlog"}, Lists: []string{"both", "*"}, Depth: gd})
 			var u []explore.Unit
@@ -516,9 +612,12 @@ func init() {
 				return
 			}
 			d := &explore.DFS{
-				Scenario: a.Name(), Space: fmt.Sprintf("multidb/%s/%s/gated=%v/same=%v/shared=%v", strings.Join(a.Kinds, "+"), strings.Join(a.Lists, "+"), a.Gated, a.SameName, a.SharedOpts),
+				Scenario: a.Name(), Space: fmt.Sprintf("multidb/%s/%s/gated=%v/same=%v/shared=%v/fetch=%d", strings.Join(a.Kinds, "+"), strings.Join(a.Lists, "+"), a.Gated, a.SameName, a.SharedOpts, a.FetchGated),
 				New: func() (explore.World, error) {
 					w, err := NewMultiDBOpts(a.Kinds, a.Lists, a.SameName, a.SharedOpts)
+					if err == nil && a.FetchGated > 0 {
+						err = w.PrepareFetchGated(a.FetchGated)
+					}
 					if err == nil && a.Gated {
 						w.gated = true
 						w.net.Gates.Enable(func(kind, peer, key, caller string) bool {
